@@ -404,9 +404,14 @@ func runC11(c *Ctx) {
 			okKey := false
 			ast.Inspect(lit.Body, func(n ast.Node) bool {
 				if as, ok := n.(*ast.AssignStmt); ok && len(as.Lhs) == 1 && len(as.Rhs) == 1 {
-					if id, ok := as.Lhs[0].(*ast.Ident); ok && id.Name == "key" {
-						if exprString(as.Rhs[0]) == "[]byte("+fileVar.Name()+".NameWithPath)" {
-							okKey = true
+					// <key variable> := []byte(<incoming entry>.NameWithPath), whatever the variables are called
+					if cv, ok := ast.Unparen(as.Rhs[0]).(*ast.CallExpr); ok && len(cv.Args) == 1 {
+						if tv, ok := info.Types[cv.Fun]; ok && tv.IsType() {
+							if sel, ok := ast.Unparen(cv.Args[0]).(*ast.SelectorExpr); ok && sel.Sel.Name == "NameWithPath" {
+								if id, ok := ast.Unparen(sel.X).(*ast.Ident); ok && info.Uses[id] == fileVar {
+									okKey = true
+								}
+							}
 						}
 					}
 				}
@@ -490,8 +495,13 @@ func runC11(c *Ctx) {
 			node: func(n ast.Node, s uint64) uint64 {
 				for _, call := range callsIn(n) {
 					id := calleeID(info, call)
-					if id == "sync.WaitGroup.Wait" && exprString(ast.Unparen(call.Fun).(*ast.SelectorExpr).X) == "wg" {
-						s |= waited
+					if id == "sync.WaitGroup.Wait" {
+						// the wait group local to mergeSplits (the merger's), not the caller's passed as parameter
+						if rid, ok := ast.Unparen(ast.Unparen(call.Fun).(*ast.SelectorExpr).X).(*ast.Ident); ok {
+							if v, ok := info.Uses[rid].(*types.Var); ok && paramIndex(f, v) < 0 {
+								s |= waited
+							}
+						}
 					}
 					if id == "builtin.close" && len(call.Args) == 1 && describeExpr(f, call.Args[0], 0) == "param#0" {
 						nClose++
